@@ -73,6 +73,40 @@ impl Ctx {
         self.out.case("nl", &[lb.to_string(), hx(data)], &[], &imp, Some(pred), cls);
     }
 
+
+    /// the cleartext framework as one more place that canonicalises: over texts without blanks or
+    /// dashes nothing is trimmed or escaped, so what it signs must be the canonical text, and the
+    /// digest must be the one-shot text signer's
+    fn csf(&mut self, data: &[u8], cls: &str) {
+        use pgp::composed::CleartextSignedMessage;
+        use pgp::packet::{Subpacket, SubpacketData};
+        use pgp::types::Timestamp;
+        let rk = RecKey::new(self.key.primary_key.public_key().clone());
+        let s = String::from_utf8(data.to_vec()).expect("ascii");
+        let r = guarded(|| -> Result<(Vec<u8>, bool), String> {
+            let mk = || { let mut c = SignatureConfig::v4(SignatureType::Text, rk.algorithm(), HashAlgorithm::Sha256);
+                c.hashed_subpackets = vec![Subpacket::regular(SubpacketData::SignatureCreationTime(Timestamp::from_secs(1_700_000_000))).unwrap()]; c };
+            rk.clear();
+            let msg = CleartextSignedMessage::new(&s, mk(), &rk, &Password::empty()).map_err(|e| e.to_string())?;
+            let d_csf = rk.last().unwrap_or_default();
+            let signed = msg.signed_text().into_bytes();
+            // the streaming hasher over the same text with the same signature fields
+            use std::io::Write;
+            let mut h = mk().into_hasher().map_err(|e| e.to_string())?;
+            h.write_all(data).map_err(|e| e.to_string())?;
+            let _ = h.sign(&rk, &Password::empty()).map_err(|e| e.to_string())?;
+            let d_stream = rk.last().unwrap_or_default();
+            let v = msg.verify(&rk).is_ok();
+            Ok((signed, v && d_csf == d_stream && !d_csf.is_empty()))
+        });
+        let (imp, pred) = match r {
+            Ok(Ok((signed, same))) => (hx(&signed), same && signed == canon(data)),
+            Ok(Err(e)) => (format!("ERR {e}"), false),
+            Err(e) => (e, false),
+        };
+        self.out.case("nl", &["1".into(), hx(data)], &["csf".into(), hx(data)], &imp, Some(pred), cls);
+    }
+
     /// UTF-8 literal data through the builder: accepted iff already canonical
     fn crlf(&mut self, data: &[u8], src: &[usize], cls: &str) {
         let r = guarded(|| {
@@ -190,6 +224,7 @@ fn main() {
                 cx.nh(true, &chunks, "nh-exh");
             }
             cx.nl(1, &s, "nl-exh");
+            if len <= 6 { cx.csf(&s, "csf-exh"); }
             if len <= 6 {
                 cx.nl(0, &s, "nl-exh-lf");
                 cx.nl(2, &s, "nl-exh-cr");
@@ -301,6 +336,7 @@ fn replay(cx: &mut Ctx, a: &[String]) {
         "nr" => cx.nr(a[1].parse().unwrap(), &unhx(&a[2]), &parse_nums(a.get(3).map(|s| s.as_str()).unwrap_or("_")),
                       &parse_nums(a.get(4).map(|s| s.as_str()).unwrap_or("_")), "replay"),
         "nl" => cx.nl(a[1].parse().unwrap(), &unhx(&a[2]), "replay"),
+        "csf" => cx.csf(&unhx(&a[1]), "replay"),
         "crlf" => {
             let chunks = parse_chunks(&a[1]);
             let sizes: Vec<usize> = chunks.iter().map(|c| c.len()).collect();
